@@ -66,8 +66,73 @@ class Divergence(Exception):
     pass
 
 
+# ---------------------------------------------------------------------------
+# cooperative locks: a real threading.Lock inside the library would block a thread WITHOUT handing the baton back (the explorer
+# would hang).  target.lib() replaces every lock object it finds in the library's modules, and the `threading` name those modules
+# see, by these: acquire() on a held lock marks the thread as blocked and yields to the scheduler; blocked threads are not enabled;
+# "nobody enabled but somebody not done" is a deadlock, reported as the outcome of the blocked threads.
+
+_current = {}      # thread ident -> (Run, tid)
+
+
+class Deadlock(Exception):
+    pass
+
+
+class CoopLock:
+    reentrant = False
+
+    def __init__(self):
+        self.owner = None
+        self.depth = 0
+
+    def _me(self):
+        return _current.get(threading.get_ident(), (None, threading.get_ident()))
+
+    def locked(self):
+        return self.depth > 0
+
+    def acquire(self, blocking=True, timeout=-1):
+        run, me = self._me()
+        while True:
+            if self.depth == 0:
+                self.owner, self.depth = (run, me), 1
+                return True
+            if self.reentrant and self.owner == (run, me):
+                self.depth += 1
+                return True
+            if not blocking or (timeout is not None and timeout >= 0):
+                return False          # a timed wait: time does not pass under the scheduler; answer as after the timeout
+            if run is None:
+                raise Deadlock("acquire() of a held lock outside the scheduler (self-deadlock)")
+            run.blocked[me] = self
+            run.main.release()
+            run.sems[me].acquire()
+            run.blocked[me] = None
+            if run.abort:
+                raise Deadlock("deadlock")
+
+    def release(self):
+        if self.depth == 0:
+            raise RuntimeError("release unlocked lock")
+        self.depth -= 1
+        if self.depth == 0:
+            self.owner = None
+
+    __enter__ = acquire
+
+    def __exit__(self, *a):
+        self.release()
+
+
+class CoopRLock(CoopLock):
+    reentrant = True
+
+
 class Run:
     def __init__(self, bodies, prefix, libdir, opcodes=False, reduce=False):
+        self.blocked = [None] * len(bodies)
+        self.abort = False
         self.opcodes = opcodes
         self.reduce = reduce
         self.n = len(bodies)
@@ -108,6 +173,7 @@ class Run:
         for i, b in enumerate(self.bodies):
             def body(i=i, b=b):
                 self.sems[i].acquire()
+                _current[threading.get_ident()] = (self, i)
                 sys.settrace(self._tracer(i))
                 try:
                     self.results[i] = ("ok", b())
@@ -115,6 +181,7 @@ class Run:
                     self.results[i] = ("exc", type(e).__name__)
                 finally:
                     sys.settrace(None)
+                    _current.pop(threading.get_ident(), None)
                     self.done[i] = True
                     self.main.release()
             t = threading.Thread(target=body, daemon=True)
@@ -122,8 +189,20 @@ class Run:
             ths.append(t)
         running, step = 0, 0
         while True:
-            enabled = [i for i in range(self.n) if not self.done[i]]
+            enabled = [i for i in range(self.n) if not self.done[i] and not (self.blocked[i] is not None and self.blocked[i].depth > 0
+                                                                            and self.blocked[i].owner != (self, i))]
             if not enabled:
+                stuck = [i for i in range(self.n) if not self.done[i]]
+                if not stuck:
+                    break
+                # deadlock: wake the blocked threads one at a time; their acquire() raises Deadlock, which becomes their outcome
+                self.abort = True
+                for i in stuck:
+                    self.sems[i].release()
+                    self.main.acquire()
+                    while not self.done[i]:          # the thread may pass further scheduling points while unwinding
+                        self.sems[i].release()
+                        self.main.acquire()
                 break
             order = ([running] if running in enabled else []) + [i for i in enabled if i != running]
             c = self.prefix[step] if step < len(self.prefix) else 0
